@@ -237,7 +237,10 @@ theorem ingest_all (hP : LifeOK P T) {c : Cache} (hc : CacheAll P c) (now : Ms) 
   cases h4 : Zc.removeAll (Cache.ops lower)
       (Zc.addAll (Cache.ops lower) (Zc.addAll (Cache.ops lower) (ingestPre lower (Cache.ops lower) c now recs).cache
         (ingestPre lower (Cache.ops lower) c now recs).addrAdds).1 (ingestPre lower (Cache.ops lower) c now recs).otherAdds).1
-      (ingestPre lower (Cache.ops lower) c now recs).removes with
+      (Zc.keptRemoves (Cache.ops lower)
+        (Zc.addAll (Cache.ops lower) (Zc.addAll (Cache.ops lower) (ingestPre lower (Cache.ops lower) c now recs).cache
+          (ingestPre lower (Cache.ops lower) c now recs).addrAdds).1 (ingestPre lower (Cache.ops lower) c now recs).otherAdds).1
+        (ingestPre lower (Cache.ops lower) c now recs).removes) with
   | error e => rw [h4] at h; simp [bind, Except.bind] at h
   | ok c4 =>
     rw [h4] at h
